@@ -149,9 +149,16 @@ def assemble(event_lines, todo_lines=None, head_extra=None, wrap=0):
     return ("\r\n".join(K_HEAD + (head_extra or []) + ev + (todo_lines or K_TODO) + K_TAIL) + "\r\n").encode("utf-8", "replace")
 
 
+def _surely_invalid(line):
+    """no property name by any reading: the line starts with a delimiter or has no word character at all (form feed, NBSP,
+    U+2028 ...).  (A line with a name and parameters but no colon is *accepted* by this deliberately lax parser, so the absence
+    of a colon is not used.)"""
+    return line[:1] in (":", ";") or not re.search(r"\w", line)
+
+
 def judge_isolate(case):
     line = case["line"]
-    if line[:1] in (" ", "\t") or re.match(r"(?i)\s*(begin|end)\s*[:;]", line) or "\n" in line or "\r" in line or not line.strip():
+    if line[:1] in (" ", "\t") or re.match(r"(?i)\s*(begin|end)\s*[:;]", line) or "\n" in line or "\r" in line or not line:
         raise ValueError("malformed case: candidate line would be a continuation / structure line")
     fails = []
     wrap = case.get("wrap", 0)
@@ -169,6 +176,10 @@ def judge_isolate(case):
         except Exception as e:  # noqa: BLE001
             fails.append(Failure("C04.total", "parse-raises/" + exc_signature(e), f"line in VTODO: {line!r}: {e!r}"[:400]))
             continue
+        # lines that are not content lines by any reading (no name before the first delimiter, no word character)
+        # must be unparsable - otherwise a parser that silently discards them would satisfy the metamorphic relation
+        if _surely_invalid(line) and not unparsable:
+            fails.append(Failure("C04.isolate", "invalid-line-silently-accepted-outside-lenient-component", f"{line!r}"))
         pos = 1 + case["pos"] % 4          # among the event's own property lines (before the VALARM)
         ev_lines = K_EVENT[:pos] + [line] + K_EVENT[pos:]
         sut.reset(provider)
@@ -183,6 +194,14 @@ def judge_isolate(case):
         except Exception as e:  # noqa: BLE001
             fails.append(Failure("C04.total", "parse-raises/" + exc_signature(e), f"line in VEVENT: {line!r}: {e!r}"[:400]))
             continue
+        try:                                   # whatever was returned must serialise (totality on the result)
+            cal.to_ical()
+            for c in cal.walk():
+                c.to_ical()
+        except ValueError:
+            pass
+        except Exception as e:  # noqa: BLE001
+            fails.append(Failure("C04.total", "to_ical-raises/" + exc_signature(e), f"line in VEVENT: {line!r}: {e!r}"[:400]))
         ev = cal.walk("VEVENT")[0]
         others = [c for c in cal.walk() if c is not ev]
         if unparsable:
@@ -248,7 +267,8 @@ SOUP = ([f"BEGIN:{c}\r\n" for c in COMPS] + [f"END:{c}\r\n" for c in COMPS] +
          ":", ";", ",", "=", '"', "\\", "\r\n", "\n", "\r\n ", "\t", " ", "\x00", "TZID=", "VALUE=DATE", "VALUE=PERIOD", "VALUE=",
          "Europe/Berlin", "/Europe/Berlin", "Europe", "UTC", "custom", "W. Europe Standard Time",
          "20200101", "20200101T000000", "20200101T000000Z", "T", "Z", "/", "P1D", "PT1H", "-P", "+0100", "-0500", "+2400", "+0100/",
-         "=,", ",,", ",:", "=;", '""', "P=a,", "FREQ=YEARLY", "FREQ=SECONDLY", "FREQ=", "BYMONTH=", "BYMONTH=L", "BYDAY=", "UNTIL=", "INTERVAL=", ";", "BYDAY=-1SU", "BYMONTH=3", "UNTIL=20200101T000000Z", "COUNT=2", "1.5;2.5", "TRUE", "mailto:a@b",
+         "=,", ",,", ",:", "=;", '""', "P=a,", "URL:", "ATTACH:", "https://example.com/one\\ntwo", "\\n", "\\N", "\x0c", "\x0b", "\x1f", "\u00a0", "\u2028",
+         "P99999999999W", "99991231T000000Z", "00010101T000000", "99991231T235959", "TZID=Europe/Berlin,Europe/Paris", "TZID=a,b", "-P99999999999D", "FREQ=YEARLY", "FREQ=SECONDLY", "FREQ=", "BYMONTH=", "BYMONTH=L", "BYDAY=", "UNTIL=", "INTERVAL=", ";", "BYDAY=-1SU", "BYMONTH=3", "UNTIL=20200101T000000Z", "COUNT=2", "1.5;2.5", "TRUE", "mailto:a@b",
          "é", "﻿", "%2C", "a", "1", "-"])
 _soup = st.lists(st.one_of(st.sampled_from(SOUP), st.sampled_from(SOUP[:20]), st.characters(blacklist_categories=("Cs",))), max_size=60)
 
@@ -317,14 +337,17 @@ def hostile_cases(draw):
     return {"gen": "hostile", "what": what if what in ("tzid", "vtimezone") else "other", "lines": lines}
 
 
-BAD_LINES = ["RRULE:FREQ=YEARLY;BYMONTH=", "RRULE:FREQ=YEARLY;BYDAY=,", "RRULE:FREQ=;COUNT=", "RRULE:BYMONTH=L", "DTSTART:garbage", "DTSTART;TZID=Europe/Berlin:2021", "DTEND:20210230T000000", "DURATION:forever", "RRULE:FREQ=SOMETIMES", "GEO:1.0", "GEO:a;b",
+BAD_LINES = ["\x0c", "\x0b", "\x1f", "\u00a0", "\u2028", "\x0c\x0c", "\u3000 ", "DURATION:P99999999999W", "RDATE;VALUE=PERIOD:99991231T000000Z/P5D",
+             "DTSTART;TZID=Europe/Berlin,Europe/Paris:20200101T000000", "DTSTART;TZID=Europe/Berlin:00010101T000000", "DTEND;TZID=Pacific/Kiritimati:99991231T235959",
+             "TRIGGER:-P99999999999D", "FREEBUSY:00010101T000000Z/-P1D", "EXDATE;TZID=a,b:20200101T000000", "RRULE:FREQ=YEARLY;BYMONTH=", "RRULE:FREQ=YEARLY;BYDAY=,", "RRULE:FREQ=;COUNT=", "RRULE:BYMONTH=L", "DTSTART:garbage", "DTSTART;TZID=Europe/Berlin:2021", "DTEND:20210230T000000", "DURATION:forever", "RRULE:FREQ=SOMETIMES", "GEO:1.0", "GEO:a;b",
              "PRIORITY:high", "SEQUENCE:1.5", "no colon here", ";=:", "X-A;P=\"unterminated:v", "X-A;=v:x", "X-A;P\x01=1:v", "X-A;P=a\x02b:v", ":value", "X-A;:v",
              "TRIGGER:soon", "EXDATE:20210101,notadate", "RDATE;VALUE=PERIOD:20210101T000000/x", "FREEBUSY:x/y", "TZOFFSETFROM:+25", "ATTACH;ENCODING=BASE64;VALUE=BINARY:%%%",
              "COMPLETED:2021-01-01", "DTSTART;VALUE=DATE:2021010", "X-A;P=1;P:v", "CREATED:99999999T999999Z", "RECURRENCE-ID:T", "DUE;TZID=:x", "REPEAT:x"]
-GOOD_LINES = ["ATTENDEE;CN=a,:mailto:a@example.com", "X-A;P=x,,y:v", "X-A;LANGUAGE=,:v", "X-A;P=,a;Q=:v", 'X-A;P="",b:v', "X-A:anything goes", "COMMENT:fine", "DTEND;TZID=Europe/Berlin:20210302T111500", "PRIORITY:5", "GEO:1.5;2.5", "EXDATE:20210101T000000Z",
+GOOD_LINES = ["URL:https://example.com/one\\ntwo", "ATTACH:file:///C:\\notes\\new.txt", "TZURL:http://x/\\Nb\\;c\\,d", "DTSTART:00010101T000000", "DTSTART:99991231T235959Z",
+              "ATTENDEE;CN=a,:mailto:a@example.com", "X-A;P=x,,y:v", "X-A;LANGUAGE=,:v", "X-A;P=,a;Q=:v", 'X-A;P="",b:v', "X-A:anything goes", "COMMENT:fine", "DTEND;TZID=Europe/Berlin:20210302T111500", "PRIORITY:5", "GEO:1.5;2.5", "EXDATE:20210101T000000Z",
               "X-B;P=1;Q=\"a:b\":v", "LOCATION:somewhere\\, else", "URL:http://example.com/", "ATTENDEE;CN=A:mailto:a@example.com", "DESCRIPTION:", "X-C;P=:v",
               "RDATE;VALUE=DATE:20210101", "DURATION:PT1H", "STATUS:CONFIRMED", "COMPLETED:20210101T000000Z"]
-_frag = st.sampled_from([":", ";", "=", ",", ",", "=,", ",,", "P=", '"', "\\", "DTSTART", "X-", "garbage", "2021", "T", "Z", "P", "\x01", "\x7f", "é", " ", "TZID=Europe/Berlin", "VALUE=DATE", "a"])
+_frag = st.sampled_from(["\x0c", "\u00a0", "99999999999", "0001", "9999", "URL", "\\n", ":", ";", "=", ",", ",", "=,", ",,", "P=", '"', "\\", "DTSTART", "X-", "garbage", "2021", "T", "Z", "P", "\x01", "\x7f", "é", " ", "TZID=Europe/Berlin", "VALUE=DATE", "a"])
 
 
 def isolate_cases():
